@@ -7,6 +7,9 @@ CostsQuick == {<<1, 1, 1>>, <<2, 2, 2>>, <<1, 2, 1>>, <<2, 1, 3>>, <<1, 1, 3>>, 
 CostsDecl  == {<<1, 1, 1>>, <<1, 2, 1>>, <<2, 1, 3>>, <<1, 1, 3>>}
 CostsThorough == CostsQuick \cup {<<1, 2, 3>>, <<3, 1, 1>>, <<1, 3, 2>>, <<2, 3, 1>>, <<3, 3, 1>>}
 NoGiven == <<>>
+\* a zero cost is a legal cost: free deletions, free insertions, free substitutions, everything free (C01 only: the edit
+\* COUNT of an optimal alignment and the completion lemma are not claimed for zero costs)
+CostsZero == {<<1, 0, 1>>, <<2, 0, 3>>, <<0, 1, 1>>, <<1, 1, 0>>, <<0, 0, 0>>}
 \* long strings: the uniform triple (scaled by non-dyadic factors in the harness: equal costs take the `mult` shortcut, so
 \* the result is exact whatever the common cost) and unequal ones whose ties the row machine resolves on integers
 CostsLong == {<<1, 1, 1>>, <<1, 2, 1>>, <<2, 1, 3>>, <<2, 1, 1>>}
